@@ -396,31 +396,31 @@ Proof.
 Qed.
 
 Theorem quiescent_no_running_job cfg s :
-  reachable cfg false s -> quiescent cfg true false s -> busy (shr s) = 0.
+  reachable cfg false s -> quiescent cfg true false s -> no_blocked_job s -> busy (shr s) = 0.
 Proof.
-  intros R Q. pose proof (inv_reachable _ _ _ _ R) as HI. pose proof (winv_reachable _ _ _ _ R) as HW.
+  intros R Q NB. pose proof (inv_reachable _ _ _ _ R) as HI. pose proof (winv_reachable _ _ _ _ R) as HW.
   pose proof (quiescent_free _ _ _ R Q) as Ho.
   destruct (Nat.eq_dec (busy (shr s)) 0) as [|Hne]; auto. exfalso.
   rewrite (i_busy _ HI) in Hne. destruct (cnt_ex _ _ Hne) as (u & Hu).
   assert (Hn : ~ In u (wsJ (shr s))).
   { intros Hin. destruct (w_in _ HW CJ u Hin) as (A & _). apply slp_CJ_w5 in A. now apply (busyr_not_w5 _ Hu). }
-  destruct (worker_enabled cfg s u R Ho (busyr_is_worker _ Hu) Hn) as (e & s' & E).
+  destruct (worker_enabled cfg s u R Ho (busyr_is_worker _ Hu) Hn (NB u)) as (e & s' & E).
   unfold lstep in E. rewrite (Q u e) in E. discriminate.
 Qed.
 
 Theorem quiescent_unterminated cfg s :
-  1 <= nworkers cfg -> reachable cfg false s -> quiescent cfg true false s -> term (shr s) = false ->
+  1 <= nworkers cfg -> reachable cfg false s -> quiescent cfg true false s -> no_blocked_job s -> term (shr s) = false ->
   queue (shr s) = [] /\ busy (shr s) = 0 /\ forall u, waits_le (get (thr s) u) = false.
 Proof.
-  intros HWk R Q T.
+  intros HWk R Q NB T.
   pose proof (inv_reachable _ _ _ _ R) as HI. pose proof (winv_reachable _ _ _ _ R) as HW. pose proof (jinv_reachable _ _ _ _ R) as HJ.
   pose proof (rinv_reachable _ _ _ _ HWk R) as HR.
   pose proof (quiescent_free _ _ _ R Q) as Ho.
-  pose proof (quiescent_no_running_job _ _ R Q) as B.
+  pose proof (quiescent_no_running_job _ _ R Q NB) as B.
   assert (NH : forall w, hold (get (thr s) w) = true -> False).
   { intros w Hh. rewrite (free_not_hold _ _ HI Ho) in Hh. discriminate. }
   assert (WE : forall w, is_worker (get (thr s) w) = true -> ~ In w (wsJ (shr s)) -> False).
-  { intros w A Hn. destruct (worker_enabled cfg s w R Ho A Hn) as (e & s' & E). unfold lstep in E. rewrite (Q w e) in E. discriminate. }
+  { intros w A Hn. destruct (worker_enabled cfg s w R Ho A Hn (NB w)) as (e & s' & E). unfold lstep in E. rewrite (Q w e) in E. discriminate. }
   assert (QE : queue (shr s) = []).
   { destruct (queue (shr s)) as [|q0 qr] eqn:Eq; auto. exfalso.
     assert (Qne : queue (shr s) <> []) by (rewrite Eq; discriminate).
